@@ -6,12 +6,14 @@ from .. import cats, docgen as D, grammar as G, kdoc as K, malformed as MF, spin
 from ..common import Bad, Result
 
 ID = 'C18'
-HEADS = ['**text', '**dynam', '**dyn', '**harm', '**mxhm', '**fing', '**foo', '**silbe', '**Xyz']
+HEADS = ['**text', '**dynam', '**dyn', '**harm', '**mxhm', '**fing', '**foo', '**silbe', '**Xyz',
+         # unknown types whose names merely resemble a known one
+         '**dynamics', '**dyn2', '**texts', '**Text', '**harmony', '**fingers', '**mxhm2', '**kernel']
 OWN = {'**text': {'LYRICS'}, '**dynam': {'DYNAMICS'}, '**dyn': {'DYNAMICS'}, '**harm': {'HARMONY'}, '**fing': {'FINGERING'},
        '**mxhm': {'HARMONY', 'MHXM'}}
 STRUCT_ROOTS = ['STRUCTURAL', 'SIGNATURES', 'EMPTY', 'BARLINES', 'IMAGE_ANNOTATIONS', 'COMMENTS']
 STRUCT = set().union(*[cats.DESC_STAR[c] for c in STRUCT_ROOTS])
-RULE = ('Headers **text, **dynam, **dyn, **harm, **mxhm, **fing and three unknown ones x four token corpora, each token '
+RULE = ('Headers **text, **dynam, **dyn, **harm, **mxhm, **fing and eleven unknown ones (eight of them near-misses of known names such as **dynamics, **Text, **kernel) x four token corpora, each token '
         'imported by a long-lived importer of that type (so every token is also preceded by a random history) and by a '
         'fresh one: (1) structural tokens labelled by grammar alternative - every barline type, null tokens, clefs, key '
         'signatures, time signatures, meter symbols, staff and bounding-box interpretations - must be recognised '
